@@ -112,7 +112,14 @@ structure Global where
   tape : List (String × String)
   used : Nat
   rd : BA                    -- EVMInterpreter.returnData
+  -- ghost observers of the run (compared with the real interpreter through hook H7-c11):
+  steps : Nat := 0           -- iterations of the interpreter loop, all frames
+  hwStack : Nat := 0         -- highest stack seen at an iteration head
+  hwDepth : Nat := 0         -- deepest evm.depth at which a frame iterated
   deriving Inhabited
+
+/-- a tape with nothing consumed yet -/
+def Global.start (tape : List (String × String)) : Global := { tape := tape, used := 0, rd := #[] }
 
 /-- consume the next tape entry, which must be the call `key`; its answer -/
 def Global.ask (g : Global) (key : String) : Option (String × Global) :=
